@@ -54,6 +54,15 @@ pub fn profile(name: &str) -> GenCfg {
             c.adopt = false;
             c.until_stable = false;
         }
+        "c06b" => {
+            // transparent cutoffs of every kind on a graph with binds (values stay comparable)
+            c.name = "c06b";
+            c.w_cutoff = 6;
+            c.same_rhs_shape = 6;
+            c.sibling_shape = 0;
+            c.kept_shape = 0;
+            c.mapref_shape = 2;
+        }
         "c07" => {
             c.name = "c07";
             c.w_write = 14;
